@@ -1,9 +1,14 @@
 (* Properties_C12 -- accelerated scanning equals byte-at-a-time scanning.
-   Statements only; every proof is [exact <lemma>] into Proofs/. *)
+   Statements only; every proof is [exact <lemma>] into Proofs/.
+   Whole documents (reader fragment of Properties_C03/C13): the result of reading n bytes is stated for EVERY memory that
+   holds the document in its first n bytes (so it cannot depend on what follows), and a gap -- k blanks, comments,
+   discarded forms -- in front of a document only shifts every position of the tree by its length
+   (C12_leading_gap_shifts_partial, to be read next to C11_every_range_rereads_partial which gives the unshifted tree). *)
 From Coq Require Import ZArith NArith List Bool.
 Import ListNotations.
 From Coq.Strings Require Import Byte String.
 From Verif Require Import Lanes Common Scan ScanFacts ScanProofs.
+From Verif Require Import Values Reader Configs FlagProofs RoundTrip RoundTripGap RoundTripRange.
 Local Open Scope N_scope.
 
 (* the bytes m[p..e) as a list *)
@@ -66,6 +71,21 @@ Example C12_example :
   skip_ws m 0 29 = 8 /\ scan_digits m 8 29 = 28.
 Proof. vm_compute. split; reflexivity. Qed.
 
+(* a gap g in front of the document a: the run succeeds and at every node of the tree the range is the span of the
+   sub-term's text counted from the end of the gap -- [full c m a' p n] says: nrs n = p, nre n = p + length, the text of a'
+   stands at p, and n denotes a' *)
+Theorem C12_leading_gap_shifts_partial : forall c o m g a, In c all_cfgs -> gapwf g -> alt g -> ends_ws g -> gwf a ->
+  slice m 0 (List.length (gappr g ++ gpr a)) = gappr g ++ gpr a ->
+  exists r s n, run_doc c o m (N.of_nat (List.length (gappr g ++ gpr a))) = Ret r s /\ r_value r = Some n /\ r_err r = EOk /\
+                tree_all (full c m) a (N.of_nat (List.length (gappr g))) n.
+Proof. exact leading_gap_shifts. Qed.
+Theorem C12_no_gap_partial : forall c o m a, In c all_cfgs -> gwf a ->
+  slice m 0 (List.length (gpr a)) = gpr a ->
+  exists r s n, run_doc c o m (N.of_nat (List.length (gpr a))) = Ret r s /\ r_value r = Some n /\ r_err r = EOk /\
+                tree_all (full c m) a 0 n.
+Proof. exact read_document_ranges. Qed.
+
+Print Assumptions C12_leading_gap_shifts_partial.
 Print Assumptions C12_skip_ws.
 Print Assumptions C12_find_quote.
 Print Assumptions C12_scan_digits.
